@@ -6,8 +6,10 @@ package main
 // ParseFlags (its helpers, its closures, the callbacks it hands to Visit / VisitAll and what those call).
 
 import (
+	"fmt"
 	"go/token"
 	"go/types"
+	"os"
 	"strings"
 
 	"golang.org/x/tools/go/ssa"
@@ -76,7 +78,18 @@ func c15isEnvLookup(i ssa.Instruction) bool {
 
 func c15isPropsCall(i ssa.Instruction) bool {
 	cc := callCommon(i)
-	return cc != nil && strings.HasPrefix(calleeName(cc), c15propsRecv)
+	return cc != nil && (strings.HasPrefix(calleeName(cc), c15propsRecv) || c15dynProps(cc))
+}
+
+// c15dynProps: a dynamic call (interface of the repository, function from a list) that can enter a method of
+// properties.Properties directly.
+func c15dynProps(cc *ssa.CallCommon) bool {
+	for _, e := range c15dyn(cc).exts() {
+		if strings.HasPrefix(e, c15propsRecv) {
+			return true
+		}
+	}
+	return false
 }
 
 // c15isApply: assigns a value to a flag with the parsing the command line uses (flag.Value.Set, directly or through
@@ -105,13 +118,18 @@ func c15anyEnv(v ssa.Value) bool {
 
 func c15anyProps(v ssa.Value) bool {
 	call, ok := v.(*ssa.Call)
-	return ok && strings.HasPrefix(calleeName(&call.Call), c15propsRecv)
+	return ok && (strings.HasPrefix(calleeName(&call.Call), c15propsRecv) || c15dynProps(&call.Call))
 }
 
 // c15sourceValue: the value part (not the presence part) of a lookup in a source.
 func c15sourceValue(v ssa.Value) bool {
 	switch x := v.(type) {
 	case *ssa.Extract:
+		if n, isNext := x.Tuple.(*ssa.Next); isNext && !n.IsString {
+			// the value (not the key) of an iteration over a map obtained from a source
+			rg, isRange := n.Iter.(*ssa.Range)
+			return x.Index == 2 && isRange && (c15isEnvMap(rg.X) || c15derives(rg.X, c15anyProps))
+		}
 		if x.Index != 0 {
 			return false
 		}
@@ -123,7 +141,9 @@ func c15sourceValue(v ssa.Value) bool {
 		if n := calleeName(&x.Call); n == c15propsRecv+"Keys" || n == c15propsRecv+"Len" {
 			return false // the list / number of keys is not the value of an option
 		}
-		return !isTuple && c15anyProps(x)
+		// (a map, a filtered copy, the list of keys of the properties are not the value of an option either)
+		b, isBasic := x.Type().Underlying().(*types.Basic)
+		return !isTuple && c15anyProps(x) && isBasic && b.Kind() == types.String
 	}
 	return false
 }
@@ -193,6 +213,25 @@ func c15presence(v ssa.Value, depth int) (env, props, ok bool) {
 				return true, false, true
 			}
 		case *ssa.Call:
+			if info := c15dyn(&t.Call); info != nil {
+				// a source behind an interface / in a list of functions: the bit is a presence bit when it is one for
+				// every implementation
+				e, p, n := false, false, 0
+				if len(info.repoFns()) > 0 {
+					e2, p2, ok2 := ofResult(t, x.Index)
+					if !ok2 {
+						return false, false, false
+					}
+					e, p, n = e2, p2, 1
+				}
+				for _, ext := range info.exts() {
+					if ext != c15propsRecv+"Get" || x.Index != 1 {
+						return false, false, false
+					}
+					p, n = true, n+1
+				}
+				return e, p, n > 0
+			}
 			if c15anyProps(t) {
 				return false, true, true
 			}
@@ -312,6 +351,7 @@ type c15flow struct {
 }
 
 func c15newFlow(c *Ctx, rule string) *c15flow {
+	c15use(c)
 	pf := c.method("config", "FlagSet", "ParseFlags")
 	if !c.need(rule, pf, "config.FlagSet.ParseFlags") {
 		return nil
@@ -383,6 +423,11 @@ func (fl *c15flow) orderOK(f *ssa.Function, depth int) bool {
 		preceded := false
 		for _, e := range es {
 			if e == g {
+				if c15dyn(callCommon(g)).both() {
+					// one dynamic call that reaches either source: the order is that of the list of sources (3g)
+					preceded = true
+					continue
+				}
 				// both inside one helper
 				ok := depth < 3
 				for _, h := range c15callees(callCommon(g)) {
@@ -474,6 +519,10 @@ func (fl *c15flow) passOrderOK(f *ssa.Function, depth int) bool {
 		preceded := false
 		for _, e := range es {
 			if e == g {
+				if c15dyn(callCommon(g)).both() {
+					preceded = true // (the order of the list of sources: 3g)
+					continue
+				}
 				// both behind one call: decided inside
 				ok := depth < 5
 				for _, h := range c15entered(g) {
@@ -501,6 +550,64 @@ func (fl *c15flow) passOrderOK(f *ssa.Function, depth int) bool {
 	return true
 }
 
+// dynOrderOK: the list a dynamic source call takes its callee from holds the environment source(s) before the
+// properties in every alternative the list can be, and is walked forwards.
+func (fl *c15flow) dynOrderOK(info *c15dynInfo) (bool, string) {
+	if info == nil || !info.fromList || len(info.lists) == 0 {
+		return false, "the call does not take its callee from a list whose construction the rule can read"
+	}
+	anyEnv := false
+	for _, l := range info.lists {
+		seenProps := false
+		for _, im := range l {
+			e, p := im.kind()
+			switch {
+			case e == p:
+				return false, "an element of the list is neither an environment source nor the properties"
+			case p:
+				seenProps = true
+			case seenProps:
+				return false, "the list holds the properties before an environment source"
+			default:
+				anyEnv = true
+			}
+		}
+	}
+	if !anyEnv {
+		return false, "no alternative of the list holds an environment source"
+	}
+	if info.index == nil || c15countsDown(info.index) {
+		return false, "the list is walked backwards"
+	}
+	return true, ""
+}
+
+// dynStopOK: no path leads from the dynamic source call d back to d (or on to another dynamic source call) without
+// leaving a test of the presence bit d returned on its false edge.
+func (fl *c15flow) dynStopOK(d ssa.Instruction) bool {
+	dv, ok := d.(ssa.Value)
+	if !ok {
+		return false
+	}
+	isD := func(x ssa.Value) bool { return x == dv }
+	absent := func(cond ssa.Value, truth bool) bool {
+		if truth || !c15isBool(cond.Type()) {
+			return false
+		}
+		if _, _, isP := c15presence(cond, 0); !isP {
+			return false
+		}
+		return c15derives(cond, isD)
+	}
+	bad := false
+	eachInstr(d.Parent(), func(j ssa.Instruction) {
+		if cc := callCommon(j); cc != nil && c15dyn(cc).both() && c15pathCut(d, j, absent) {
+			bad = true
+		}
+	})
+	return !bad
+}
+
 // c15propsValue: the result of a lookup in the properties (not the list or the number of their keys).
 func c15propsValue(v ssa.Value) bool {
 	call, ok := v.(*ssa.Call)
@@ -519,6 +626,12 @@ func c15keyedBySource(v ssa.Value) bool {
 		return ok && calleeName(&call.Call) == c15propsRecv+"Keys"
 	}
 	return c15derives(v, func(x ssa.Value) bool {
+		// key and value of an iteration over a map obtained from the properties (Properties.Map(), FilterPrefix(..).Map())
+		if n, isNext := x.(*ssa.Next); isNext && !n.IsString {
+			if rg, isRange := n.Iter.(*ssa.Range); isRange && c15derives(rg.X, c15anyProps) {
+				return true
+			}
+		}
 		call, ok := x.(*ssa.Call)
 		if !ok || !c15propsValue(call) || len(call.Call.Args) < 2 {
 			return false
@@ -946,6 +1059,26 @@ func runC15R2(c *Ctx) {
 		c.check("C15.R2", fbKey+"|properties only when the environment has no value", pos, okP,
 			"the value of the properties file may become the assigned one only on paths on which the environment lookup reported no value")
 	}
+	// 3g. sources consulted through one dynamic call (an interface of the repository, a list of lookup functions) that
+	// can reach the environment as well as the properties: the precedence is the order of the list the callee is taken
+	// from, walked forwards, and the walk must end at the first source that reports a value
+	eachInstrOf(fl.reg, func(f *ssa.Function, i ssa.Instruction) {
+		cc := callCommon(i)
+		if cc == nil {
+			return
+		}
+		info := c15dyn(cc)
+		if !info.both() {
+			return
+		}
+		okL, whyL := fl.dynOrderOK(info)
+		if os.Getenv("C15_DEBUG") != "" {
+			fmt.Fprintf(os.Stderr, "DBG dyn %s fromList=%v lists=%d impls=%d: %s\n", c.Fset.Position(i.Pos()), info.fromList, len(info.lists), len(info.impls), whyL)
+		}
+		c.check("C15.R2", fbKey+"|environment before properties", i.Pos(), okL, orderMsg+" (the sources are consulted through one dynamic call, so their precedence is the order of the list they are taken from: "+whyL+")")
+		c.check("C15.R2", fbKey+"|the first source that supplies a value ends the search", i.Pos(), fl.dynStopOK(i),
+			"after a source of the list has reported a value no further source may be consulted: otherwise a lower-priority source (the properties) can replace the value of a higher-priority one (the environment)")
+	})
 	if passOrder {
 		// separate passes: the pass over the environment marks what it assigns (above), the later pass leaves marked
 		// flags alone (3a); what remains is that the properties' pass cannot run before the environment's
@@ -1098,8 +1231,8 @@ func c15flatten(v ssa.Value, norm string, ctx []*ssa.Call, depth int) []c15leaf 
 			for _, g := range c15callees(&ctx[n-1].Call) {
 				if g == fn {
 					for k, p := range fn.Params {
-						if p == x && k < len(ctx[n-1].Call.Args) {
-							return c15flatten(ctx[n-1].Call.Args[k], norm, ctx[:n-1], depth+1)
+						if a := c15argAt(&ctx[n-1].Call, fn, k); p == x && a != nil {
+							return c15flatten(a, norm, ctx[:n-1], depth+1)
 						}
 					}
 				}
@@ -1259,7 +1392,7 @@ func (fl *c15flow) derives(v ssa.Value, pred func(ssa.Value) bool) bool {
 				continue
 			}
 			for _, s := range fl.sites[p.Parent()] {
-				if cc := callCommon(s); cc != nil && k < len(cc.Args) && c15derives(cc.Args[k], p2) {
+				if a := c15argAt(callCommon(s), p.Parent(), k); a != nil && c15derives(a, p2) {
 					return true
 				}
 			}
